@@ -48,6 +48,14 @@ type World struct {
 	lemmaPkgs   []*types.Package
 	loopSpecs   map[string]*Contract
 	locSets     map[string][]string
+	typeInvs    map[string][]*typeInvInfo // by typeKey of the pointer's element type
+}
+
+type typeInvInfo struct {
+	v   string
+	cl  *Clause
+	pkg *types.Package
+	gt  types.Type // pointer type
 }
 
 type structInfo struct {
@@ -92,6 +100,7 @@ func newWorld() *World {
 		contractPkg: map[*Contract]*types.Package{},
 		loopSpecs:   map[string]*Contract{},
 		locSets:     map[string][]string{},
+		typeInvs:    map[string][]*typeInvInfo{},
 	}
 }
 
